@@ -116,10 +116,13 @@ def cli_case(rng):
     alldisc = rng.random() < 0.4
     if alldisc:
         k = rng.randint(1, 3)
+    big = (not alldisc) and rng.random() < 0.25
+    if big:
+        k = rng.choice([100, 101, 202, 250])          # more than a hundred sentences: progress reporting, batching
     ts = []
     text = ""
     for i in range(k):
-        cfg = treegen.Cfg(n_min=5 if alldisc else 1, n_max=10 if alldisc else 7, p_disc=0.9 if alldisc else 0.5, none_fields=False,
+        cfg = treegen.Cfg(n_min=5 if alldisc else 1, n_max=10 if alldisc else (4 if big else 7), p_disc=0.9 if alldisc else 0.5, none_fields=False,
                           labels=treegen.PLAIN_LABELS, words=["a", "b", "cc", "Haus"], punct_words=[",", "."], edges=["HD", "--"])
         t = treegen.gen_tree(rng, cfg)
         t.data['sid'] = i + 1
